@@ -201,23 +201,23 @@ fn check_case(ctx: &mut Ctx, c: &Case) {
             enable_all(&mut v);
             v
         })));
-        // A raw vector that was grown with set bits and shrunk back before the conversion: once to the end of
-        // the current word (the shrink keeps the number of words) and once by more than a word (it drops words).
-        routes.push(("RawVector resize up/down history", guard(|| {
-            use simple_sds::raw_vector::{PushRaw, RawVector};
-            let mut raw = RawVector::new();
-            for b in ModelIter::new(&m) {
-                raw.push_bit(b);
-            }
-            let len = raw.len();
-            raw.resize((len / 64 + 1) * 64, true);
-            raw.resize(len, true);
-            raw.resize(len + 100, true);
-            raw.resize(len, false);
-            let mut v = BitVector::from(raw);
-            enable_all(&mut v);
-            v
-        })));
+        // A raw vector that was grown with set bits and shrunk back before the conversion: to the end of the
+        // current word (the shrink keeps the number of words), and by more than a word (it drops words).
+        for (route, grow_to) in [("RawVector resize within the word and back", (m.len as usize / 64 + 1) * 64), ("RawVector resize beyond the word and back", m.len as usize + 100)] {
+            routes.push((route, guard(|| {
+                use simple_sds::raw_vector::{PushRaw, RawVector};
+                let mut raw = RawVector::new();
+                for b in ModelIter::new(&m) {
+                    raw.push_bit(b);
+                }
+                let len = raw.len();
+                raw.resize(grow_to, true);
+                raw.resize(len, true);
+                let mut v = BitVector::from(raw);
+                enable_all(&mut v);
+                v
+            })));
+        }
         routes.push(("From<SparseVector>", guard(|| {
             let sv: SparseVector = sparse_from_model(&m).expect("harness: sparse builder refused a valid model");
             let mut v = BitVector::from(sv);
